@@ -15,6 +15,7 @@ import (
 	"io"
 	"os"
 	"path/filepath"
+	"regexp"
 	"sort"
 	"strings"
 	"testing"
@@ -184,6 +185,9 @@ func classifyMutant(pos, a string) (class, want string) {
 	case i < 0 || i != strings.Index(t, ":"):
 		if nat.Net == "stdio" || nat.Net == "-" {
 			return "scheme-colon", "any"
+		}
+		if strings.HasPrefix(nat.Net, "unix") {
+			return "unix-no-authority", "any" // unix:name.sock - a path without "//": lenient reading or rejection are both fine
 		}
 		return "missing-hostport", "reject"
 	case strings.HasPrefix(t[i+3:], "/") && (nat.Net == "tcp" || nat.Net == "udp" || nat.Net == "udp|tcp"):
@@ -500,6 +504,16 @@ func mutantInputs(seed int64, n int) []input {
 		if a == r.Scheme+"://"+host {
 			continue
 		}
+		if strings.HasPrefix(host, "s{N}") {
+			// a single '/' (or three) in front of the socket name would name a file in the root directory
+			k := 0
+			for i := len(pre) - 1; i >= 0 && pre[i] == '/'; i-- {
+				k++
+			}
+			if k == 1 || k >= 3 {
+				continue
+			}
+		}
 		class, want := classifyMutant(pos, a)
 		res = append(res, input{Pos: pos, Class: class, Addr: a, Name: "ch", Want: want, Mutant: true})
 	}
@@ -623,7 +637,7 @@ func TestVerifC18(t *testing.T) {
 	// spread the expensive kinds evenly: order by (monitor, index) and deal round-robin
 	sort.SliceStable(items, func(i, j int) bool { return items[i].Mon < items[j].Mon })
 	wl, _ := json.Marshal(items)
-	rec.Seen("worklist_hash(all shards must agree)", fmt.Sprintf("%d items, fnv %x", len(items), fnv64(wl)))
+	rec.Seen(fmt.Sprintf("worklist_hash:%s:blackbox=%v", rec.Tier(), e.bin != ""), fmt.Sprintf("%d items, fnv %x", len(items), fnv64(wl)))
 	for idx, d := range items {
 		if !rec.Mine(idx) {
 			continue
@@ -685,6 +699,42 @@ func resolve(tmpl string, p, f int, abs string, n int) string {
 	s = strings.Replace(s, "{ABS}", abs, -1)
 	s = strings.Replace(s, "{N}", fmt.Sprint(n), -1)
 	return s
+}
+
+var hostPortRe = regexp.MustCompile(`(\d{1,3}(?:\.\d{1,3}){3}|\[[0-9a-fA-F:]+\]):(\d{1,5})`)
+var sockNameRe = regexp.MustCompile(`/?[^\s:?#~>]*s\d+\.sock`)
+
+// namedEndpoints: every endpoint the text of an address names, wherever in the text it stands. An
+// implementation that reads a malformed address leniently may only end up at one of these.
+func namedEndpoints(text string, r *ref, cwd string) []string {
+	var res []string
+	if r == nil {
+		return nil
+	}
+	switch r.Net {
+	case "tcp", "udp", "udp|tcp":
+		for _, m := range hostPortRe.FindAllString(text, -1) {
+			res = append(res, m)
+		}
+	case "unix", "unixpacket", "unixgram":
+		for _, m := range sockNameRe.FindAllString(text, -1) {
+			if strings.HasPrefix(m, "/") {
+				res = append(res, filepath.Clean(m))
+			} else {
+				res = append(res, filepath.Join(cwd, m))
+			}
+		}
+	}
+	return res
+}
+
+func namedHit(network, bound string, named []string) bool {
+	for _, n := range named {
+		if sameEndpoint(network, bound, n) {
+			return true
+		}
+	}
+	return false
 }
 
 // endpointOf: where a well-formed address points (network, address as the OS sees it).
